@@ -7,6 +7,8 @@ Import ListNotations.
 Local Open Scope Z_scope.
 
 Definition OWN := 18014398509481984 + 2199023255552 + 2147483648.
+Lemma OWN_is_OWNED : OWN = OWNED.    (* the constant the correspondence check passes as `owned` *)
+Proof. reflexivity. Qed.
 
 Definition is_drain (p : pc) : bool :=
   match p with PA_xchg _ _ | PA_link _ _ _ | PA_probe _ _ | PA_wake _ _ | PA_tpush _ => false | _ => true end.
